@@ -70,6 +70,10 @@ CHECKS["C03"] = dict(engine="system", level=("model_checking", "Fork histories (
     technique="TLA+ reference execution over the canonical chain + client model (TraceSystem.tla) validating real pipeline runs on forkable-generated histories")
 HOOK_COMMITS.append("9a781b5e")
 
+CHECKS["C16"] = dict(engine="system", level=("fault_enumeration", "Transient faults (unavailable before the call, stream dropped mid-way, overloaded, connection lost after the job wrote its files; 1..3 per request, placed on random ProcessRange calls including retries) and a deterministic module failure at a random block of the range (both modes) are injected on the client side of an in-memory gRPC connection between the REAL work.RemoteWorker (retry loop, classification) and the REAL exported Tier2Service.ProcessRange (real error mapping, status codes on the wire); the delivered stream and the returned error code are judged by TraceSystem.tla against SeqExec: transient faults must not change the outputs, a deterministic failure must end with invalid-argument after a correct prefix that stops before the failing block. Design level: MCWorker.tla (retry loop x job idempotence) is model-checked with fairness for every placement of up to 2 faults over 3 jobs.", "6/C16"),
+    note="real derr back-off (>= 1 s per retry) limits the number of fault runs; deadline-exceeded x3 is specified to fail the job and is not injected; fault placements are sampled, not enumerated against the real code",
+    technique="TLA+ retry/idempotence model (MCWorker.tla) checked by TLC + trace validation (TraceSystem.tla) of real RemoteWorker/tier2 runs under injected faults")
+
 NOT_YET = "machinery for this property is not built yet in this revision (work in progress; see DESIGN.md section 9 for the plan)"
 
 
